@@ -181,6 +181,7 @@ def case_contest(tid, N, crossings, audit_type, use_style, rng):
         cvrs = None
         if audit_type == "ONEAUDIT":
             cvrs = [CVR(id=f"c{j}", votes={"con": {"W": 1}}, tally_pool="P", pool=False, sample_num=j + 1) for j in range(N)]
+        con.sample_size = rng.choice([None, 0, N, 2 * N])      # what an earlier estimate (other assumptions) left behind
         res = con.find_sample_size(audit=audit, mvr_sample=None, cvr_sample=cvrs)
         return {"result": int(res), "attr": int(con.sample_size)}
     return guard(rec, go)
@@ -203,6 +204,7 @@ def case_audit(tid, N, crossings_by_contest, rng):
                 hh = {"c": c, "seen": []}
                 a = mk_assertion(con, N, hh, margin=0.2 + k / 10, loser=("L" if k % 2 == 0 else "X"))
                 con.assertions[f"a{k}"] = a
+            con.sample_size = rng.choice([None, 0, N, 2 * N])
             contests[name] = con
         audit = compare.mk_audit(True, N)
         audit.error_rate_1, audit.error_rate_2, audit.reps = 0.25, 0, None
